@@ -167,6 +167,11 @@ func (n *node) Close() {
 }
 
 func newNode(w *world, kind string, id *keys.Identity, ip string, listen bool) (*node, error) {
+	return newNodeLimits(w, kind, id, ip, listen, rcmgr.InfiniteLimits)
+}
+
+// newNodeLimits: the same host, its resource manager configured with the given limits.
+func newNodeLimits(w *world, kind string, id *keys.Identity, ip string, listen bool, limits rcmgr.ConcreteLimitConfig) (*node, error) {
 	ps, err := pstoremem.NewPeerstore()
 	if err != nil {
 		return nil, err
@@ -184,7 +189,7 @@ func newNode(w *world, kind string, id *keys.Identity, ip string, listen bool) (
 	if err := ps.AddPubKey(id.ID, id.Pub); err != nil {
 		return fail(err)
 	}
-	rm, err := rcmgr.NewResourceManager(rcmgr.NewFixedLimiter(rcmgr.InfiniteLimits), rcmgr.WithMetricsDisabled())
+	rm, err := rcmgr.NewResourceManager(rcmgr.NewFixedLimiter(limits), rcmgr.WithMetricsDisabled())
 	if err != nil {
 		return fail(err)
 	}
